@@ -218,6 +218,8 @@ class QueueModel:
         if attr == "put":
             def put(sx2, a, k, s, n):
                 item = a[0]
+                if isinstance(item, Val) and isinstance(item.ty, V.Tuple) and len(item.ty.items) == 2:
+                    item = Conc(tuple(Val(t, item.ty.field(item.term, i)) for i, t in enumerate(item.ty.items)))
                 if isinstance(item, Conc) and isinstance(item.v, tuple) and len(item.v) == 2:
                     sid, ev = item.v
                     is_sentinel = isinstance(ev, Val) and isinstance(ev.ty, V._None)
@@ -321,3 +323,207 @@ unsubscribe = REG.unit(Unit(
     props=["C13", "C19", "C05"], ghost_init=ghost_registry,
     canaries=[("never-removes", "sub_id is None or sub_id in %s" % NEW_SUBS)],
 ))
+
+
+# ---- live fan-out --------------------------------------------------------------------------------
+# notify_all_connected: one notify(event) task per subscription yielded by iterating the registry, nothing else.
+# (That iterating dict.values() yields every value exactly once is the assumed contract of dict.)
+from .common import TASK  # noqa: E402
+TASKS = V.List(TASK)
+NOTIFIED = MapNotified = None
+
+
+NOTIFIED = V.Map(SUB, V.Int)
+
+
+class RegistryValues:
+    """self.clients.values(): yields the per-connection dicts of the registry"""
+
+    def __init__(self, clients_ref):
+        self.clients_ref = clients_ref
+
+    def __pyvc_iter__(self, sx, st, node):
+        return ("opaque", self)
+
+    def next(self, sx, st, k):
+        c = sx.fresh(CLIENT, "conn", st)
+        e = reg_entry(st, self.clients_ref, c)
+        st.assume(z3.Not(OSUBS.is_none(e)))
+        return [R(st, Conc(ClientDict(self.clients_ref, c)))]
+
+
+class ClientDict:
+    def __init__(self, clients_ref, cid):
+        self.clients_ref, self.cid = clients_ref, cid
+
+    def __pyvc_getattr__(self, sx, attr, st, node):
+        if attr == "values":
+            return [R(st, Func(lambda sx2, a, k, s, n: [R(s, Conc(SubValues(self.clients_ref, self.cid)))], "dict.values"))]
+        raise Unsupported("client dict .%s" % attr, node)
+
+
+class SubValues:
+    def __init__(self, clients_ref, cid):
+        self.clients_ref, self.cid = clients_ref, cid
+
+    def __pyvc_iter__(self, sx, st, node):
+        return ("opaque", self)
+
+    def next(self, sx, st, k):
+        key = sx.fresh(V.Str, "sub_key", st)
+        d = OSUBS.get(reg_entry(st, self.clients_ref, self.cid))
+        st.assume(z3.Select(SUBS.dom(d), key.term))
+        s = Val(SUB, z3.Select(SUBS.map(d), key.term))
+        st.ghost["cur_open_sub"] = s
+        return [R(st, s)]
+
+
+@REG.method("Clients", "values", frame=[])
+def _clients_values(sx, args, kwargs, st, node):
+    return [R(st, Conc(RegistryValues(args[0])))]
+
+
+class StatCollector:
+    """stat_collector.timeit(name): a context manager yielding a counter dict (assumption A6: no other effect)"""
+
+    def __pyvc_getattr__(self, sx, attr, st, node):
+        if attr == "timeit":
+            return [R(st, Func(lambda sx2, a, k, s, n: [R(s, Conc(TimeitCM()))], "timeit"))]
+        raise Unsupported("stat_collector.%s" % attr, node)
+
+
+class TimeitCM:
+    def enter(self, sx, st, node):
+        t = V.Dict(V.Str, V.Int)
+        d = Val(t, t.put(t.empty(), z3.StringVal("count"), z3.IntVal(0)))
+        return [R(st, Ref(t, st.alloc(d)))]
+
+    def exit(self, sx, st, exc, node):
+        return [R(st, False)]
+
+
+REG.ctx_managers.append((lambda m, st: isinstance(m, Conc) and isinstance(m.v, TimeitCM), lambda m: m.v))
+REG.classes["BaseStorage"]["stat_collector"] = lambda sx, st, name: Conc(StatCollector())
+REG.classes["BaseStorage"]["_notify_sub_tasks"] = TASKS
+
+
+def ghost_notify(sx, st):
+    ghost_registry(sx, st)
+    st.ghost["notified"] = sx.fresh(NOTIFIED, "notified0", st)
+    st.ghost["tasks_created"] = V.mk_int(0)
+    st.ghost["cur_open_sub"] = sx.fresh(SUB, "no_sub", st)
+    st.ghost["notified_only_open"] = V.mk_bool(True)
+
+
+def _sub_notify_hook(sx, obj, attr, args, kwargs, st, node):
+    if attr == "notify":
+        n = st.ghost["notified"]
+        st.ghost["notified"] = Val(NOTIFIED, z3.Store(n.term, obj.term, z3.Select(n.term, obj.term) + 1))
+        ok = z3.And(obj.term == st.ghost["cur_open_sub"].term, sx.eq(args[0], sx.lookup("event", st), st))
+        st.ghost["notified_only_open"] = Val(V.Bool, z3.And(st.ghost["notified_only_open"].term, ok))
+        return [R(st, Conc("coroutine:notify"))]
+    return _sub_method(sx, obj, attr, args, kwargs, st, node)
+
+
+REG.hooks[("method", repr(SUB))] = _sub_notify_hook
+
+notify_all = REG.unit(Unit(
+    P, "BaseStorage.notify_all_connected",
+    Contract("BaseStorage.notify_all_connected", {"self": V.ObjT("BaseStorage"), "event": EVENT},
+             ensures=[("only-open-subscriptions-notified", "ghost('notified_only_open')"),
+                      ("registry-untouched", "True")],
+             raises={}),
+    loops={
+        "self.clients.values()": LoopSpec("connections", index="_c", invariants=[("only-open", "ghost('notified_only_open')"), ("counter", "'count' in counter")]),
+        "client.values()": LoopSpec("subs", index="_s", invariants=[("only-open", "ghost('notified_only_open')"), ("counter", "'count' in counter")],
+                                    head_snap={"tasks": "self._notify_sub_tasks"}, iter_post=[
+            # exactly one notify(event) task per open subscription yielded, recorded in the task list
+            ("one-task-per-open-subscription",
+             "ghost('tasks_created') == head_tasks_created + 1 and len(self._notify_sub_tasks) == len(head_tasks) + 1 and "
+             "ghost('notified')[sub] == head_notified[sub] + 1 and "
+             "forall(lambda s: implies(s != sub, ghost('notified')[s] == head_notified[s]), s=Opaque('Subscription'))"),
+        ]),
+    },
+    props=["C05"], ghost_init=ghost_notify,
+    canaries=[("notifies-nobody", "ghost('tasks_created') == 0")],
+))
+
+
+# ---- BaseSubscription.notify: live push ----------------------------------------------------------
+REG.classes["LiveSub"] = {
+    "log": lambda sx, st, name: LOGGER, "sub_id": V.Str, "client_id": CLIENT, "auth_token": V.Opt(TOKEN),
+    "filters": V.Opaque("Filters"), "queue": lambda sx, st, name: Conc(QueueModel()), "storage": V.ObjT("LiveStorage"),
+    "__frozen__": ("sub_id", "client_id", "filters", "queue", "storage"),
+}
+REG.classes["LiveStorage"] = {"check_output": V.Opt(V.Opaque("OutputValidator")), "__frozen__": ("check_output",)}
+MATCH_LIVE = REG.ufun("match_live", [V.Opaque("Filters").sort(), EVENT.sort()], z3.BoolSort())
+OUTPUT_OK = REG.ufun("output_ok", [V.Opaque("OutputValidator").sort(), EVENT.sort()], z3.BoolSort())
+
+
+@REG.method("LiveSub", "check_event", frame=[])
+def _check_event_call(sx, args, kwargs, st, node):
+    """self.check_event(event, filters) (own contract, C05): whether some filter matches the event"""
+    st.ghost["check_event_calls"] = Val(V.Int, st.ghost["check_event_calls"].term + 1)
+    return [R(st, Val(V.Bool, MATCH_LIVE(args[2].term, args[1].term)))]
+
+
+@REG.hook("call", repr(V.Opaque("OutputValidator")))
+def _call_output_validator(sx, f, args, kwargs, st, node):
+    """the configured output validator (ASSUMED arbitrary predicate of the event and the context)"""
+    st.ghost["output_checked"] = Val(V.Bool, sx.eq(args[0], sx.lookup("event", st), st))
+    return [R(st, Val(V.Bool, OUTPUT_OK(f.term, args[0].term)))]
+
+
+@REG.model("match_live")
+def _match_live(sx, args, kwargs, st, node):
+    return [R(st, Val(V.Bool, MATCH_LIVE(args[0].term, args[1].term)))]
+
+
+@REG.model("output_ok")
+def _output_ok(sx, args, kwargs, st, node):
+    v = args[0]
+    t = v.ty
+    return [R(st, Val(V.Bool, z3.Or(t.is_none(v.term), OUTPUT_OK(t.get(v.term), args[1].term))))]
+
+
+class CatchTime:
+    def enter(self, sx, st, node):
+        return [R(st, Conc(self))]
+
+    def exit(self, sx, st, exc, node):
+        return [R(st, False)]
+
+    def __pyvc_getattr__(self, sx, attr, st, node):
+        if attr == "duration":
+            return [R(st, sx.fresh(V.Real, "duration", st))]
+        raise Unsupported("catchtime.%s" % attr, node)
+
+
+@REG.model("catchtime")
+def _catchtime(sx, args, kwargs, st, node):
+    return [R(st, Conc(CatchTime()))]
+
+
+REG.ctx_managers.append((lambda m, st: isinstance(m, Conc) and isinstance(m.v, CatchTime), lambda m: m.v))
+
+
+def ghost_live(sx, st):
+    ghost_registry(sx, st)
+    st.ghost["check_event_calls"] = V.mk_int(0)
+    st.ghost["output_checked"] = V.mk_bool(False)
+
+
+PUSH = "(match_live(self.filters, event) and output_ok(self.storage.check_output, event))"
+REG.unit(Unit(
+    P, "BaseSubscription.notify",
+    Contract("BaseSubscription.notify", {"self": V.ObjT("LiveSub"), "event": EVENT},
+             ensures=[
+                 # exactly the matching events are pushed, once, under this subscription's own id
+                 ("pushed-once-iff-matching-and-allowed", "ghost('n_event_put') == (1 if %s else 0)" % PUSH),
+                 ("pushed-under-own-id", "implies(%s, ghost('last_put_sub_id') == self.sub_id)" % PUSH),
+                 ("no-eose-from-live-path", "ghost('n_eose_put') == 0 and ghost('n_other_put') == 0"),
+             ],
+             raises={}),
+    props=["C05", "C14"], ghost_init=ghost_live,
+    canaries=[("never-pushes", "ghost('n_event_put') == 0")],
+)).obligation_props = []
